@@ -120,7 +120,29 @@ func runC03(w *World) {
 				}
 				if idx == 0 {
 					// administrator: account and roster operations overlap hostile logins
-					switch orng.Intn(4) {
+					switch orng.Intn(6) {
+					case 4, 5:
+						// the administrator kicks a hostile user it sees in the user list - who may have left a moment ago -
+						// or invites it to a private chat
+						if us, ok := c.UserList(); ok {
+							var cands []uint16
+							for _, u := range us {
+								if len(u.Name) >= 7 && u.Name[:7] == "hostile" {
+									cands = append(cands, u.ID)
+								}
+							}
+							if len(cands) > 0 {
+								target := cands[orng.Intn(len(cands))]
+								Delay(orng.Intn(30))
+								if orng.Intn(2) == 0 {
+									c.DisconnectUser(target, 0)
+									w.Probe("admin_kicks_hostile_user")
+								} else {
+									c.Do(rp.TInviteNewChat, rp.F16(rp.FUserID, target))
+									w.Probe("admin_invites_hostile_user")
+								}
+							}
+						}
 					case 0:
 						c.SetUser("guest", "Guest", hostileAcc, PwAbsent, "")
 					case 1:
